@@ -8,7 +8,7 @@
    constant breaks the proofs). *)
 From Coq Require Import List NArith ZArith Bool.
 From TarsV Require Import Gen.Consts Select.Failover Select.FailoverProofs Select.FailoverInv Select.FailoverThms
-  Select.FailoverExamples.
+  Select.FailoverExamples Select.FailoverQueue.
 Import ListNotations.
 Open Scope Z_scope.
 
@@ -56,6 +56,13 @@ Theorem C15_shrunk_only_by_dropping_refresh : forall s l s', step s l = Some s' 
 Proof. exact FailoverThms.shrunk_only_by_dropping_refresh. Qed.
 Print Assumptions C15_shrunk_only_by_dropping_refresh.
 
+(* in terms of the history: the scope is left exactly by a refresh that drops an endpoint which has an adapter then *)
+Theorem C15_scope_left_only_by_dropping_refresh : forall ls s0 s, run s0 ls = Some s -> shrunk s0 = false -> shrunk s = true ->
+  exists pre r post s1 e ai, ls = pre ++ Refresh r :: post /\ run s0 pre = Some s1 /\
+    lookup e (att s1) = Some ai /\ ~ In e r.
+Proof. exact FailoverQueue.scope_left_only_by_dropping_refresh. Qed.
+Print Assumptions C15_scope_left_only_by_dropping_refresh.
+
 (* without that scope the clause is false of the model (and of the code: the witness history is replayed on the
    implementation by the harness, corpus case "stale-probe-after-readd") *)
 Theorem C15_blocked_after_streak_any_refresh_refuted :
@@ -82,6 +89,13 @@ Theorem C15_probe_single : forall s ai, reachable s ->
   (countN ai (probelog s) + countN ai (probeq s) <= req_count ai (reqlog s))%nat.
 Proof. exact FailoverThms.probe_single. Qed.
 Print Assumptions C15_probe_single.
+
+(* clause 3c: the probe queue never holds two probes for one endpoint, and the dedupe set is exactly the set of endpoints
+   with a queued probe (an endpoint whose probe has been handed out can be requested again; none is locked out) *)
+Theorem C15_probe_queue_dedupe : forall s, reachable s ->
+  NoDup (qeps s) /\ forall e, In e (pset s) <-> In e (qeps s).
+Proof. exact FailoverQueue.probe_queue_dedupe. Qed.
+Print Assumptions C15_probe_queue_dedupe.
 
 (* clause 4a: once a probe is answered, the reinstatement is enabled and stays enabled whatever else happens, and when
    it runs the adapter is active with cleared counters and its endpoint is back in the selectors and the active list *)
